@@ -198,6 +198,27 @@ def ValidPoly : Poly → Bool
     shell.all (fun v => holes.all fun h => sideRing v h == .outside) &&
     holesOK shell [] holes
 
+/-- The region a polygon denotes does not depend on the order in which its rings are listed (the
+even-odd reading does not care; the library's own clipper returns holes before the shell).
+`shellFirst p` lists the same rings with the shell first, when one of the rings can play the shell
+of a `ValidPoly`. -/
+def shellIndex (p : Poly) : Option Nat :=
+  (List.range p.length).find? fun i =>
+    match p[i]? with
+    | some r => ValidPoly (r :: p.eraseIdx i)
+    | none => false
+
+/-- ring `i` moved to the front -/
+def moveFront (i : Nat) (p : Poly) : Poly :=
+  match p[i]? with
+  | some r => r :: p.eraseIdx i
+  | none => p
+
+def shellFirst (p : Poly) : Option Poly := (shellIndex p).map fun i => moveFront i p
+
+/-- valid polygon in any ring order -/
+def ValidAnyOrder (p : Poly) : Bool := (shellFirst p).isSome
+
 /-- the holes do not outweigh the shell (true of every genuinely valid polygon; kept as an explicit
 decidable side condition because its derivation from `ValidPoly` is the Jordan-measure argument
 that is outside this development) -/
@@ -219,6 +240,12 @@ def membersApart : MPoly → Bool
 
 /-- at least one member (the centroid of nothing is undefined), every member valid, members apart -/
 def ValidMPoly (mp : MPoly) : Bool := !mp.isEmpty && mp.all ValidPoly && membersApart mp
+
+/-- multi-polygon of valid members, each in any ring order; `none` when some member is not valid -/
+def shellFirstM (mp : MPoly) : Option MPoly :=
+  match mp.mapM shellFirst with
+  | some q => if ValidMPoly q then some q else none
+  | none => none
 
 /-! ## Lengths and distances (exact rational bounds; the real-valued statements are in Proofs) -/
 
